@@ -122,7 +122,28 @@ def gen_tie(pid, theorems):
     make(["Model/AP.vo", "Model/Matching.vo", "Model/Filter.vo", "Model/Clear.vo", "Model/PassFail.vo"])
     d = os.path.join(BUILD, "gentie")
     os.makedirs(d, exist_ok=True)
+    # results are remembered per theorem under a digest of EVERY source file of the development (generated files included): the same
+    # sources give the same answer, so properties that share an equation (and repeated runs on an unchanged tree) do not recompile it
+    import hashlib
+    hh = hashlib.sha256()
+    for dp, _, fs in sorted(os.walk(THEORIES)):
+        for f in sorted(fs):
+            if f.endswith(".v"):
+                hh.update(f.encode())
+                hh.update(open(os.path.join(dp, f), "rb").read())
+    digest = hh.hexdigest()
+    cache_p = os.path.join(d, "cache.json")
+    try:
+        cache = json.load(open(cache_p))
+        if cache.get("digest") != digest:
+            cache = {"digest": digest, "results": {}}
+    except Exception:  # noqa: BLE001
+        cache = {"digest": digest, "results": {}}
+    jobs_ = []
     for t in theorems:
+        if cache["results"].get(t) == "checked":
+            out[t] = "checked"
+            continue
         fn = next((f for f, (sf, _, _) in files.items() if re.search(r"^Theorem " + re.escape(t) + r"\b", sf, flags=re.M)), "GenTie.v")
         src, head, deps = files[fn]
         if fn not in made:
@@ -133,17 +154,32 @@ def gen_tie(pid, theorems):
             continue
         m = re.search(r"^Theorem " + re.escape(t) + r"\b.*?^Print Assumptions " + re.escape(t) + r"\.", src, flags=re.M | re.S)
         if not m:
-            out[t] = "lost: theorem not found in Props/GenTie.v"
+            out[t] = "lost: theorem not found in Props/GenTie*.v"
             continue
         path = os.path.join(d, f"{pid}_{t}.v")
         with open(path, "w") as f:
             f.write(head + "\n" + m.group(0) + "\n")
-        rc, o = sh(["coqc", "-Q", THEORIES, "PE", "-w", "-notation-overridden,-deprecated-hint-without-locality", path], timeout=600, cwd=d)
+        jobs_.append((t, path))
+
+    def _one(tp):
+        t, path = tp
+        rc, o = sh(["coqc", "-Q", THEORIES, "PE", "-w", "-notation-overridden,-deprecated-hint-without-locality", path], timeout=900, cwd=d)
         if rc == 0 and "Closed under the global context" in o and "Axioms:" not in o:
-            out[t] = "checked"
-        else:
-            mm = re.search(r"(Error:.*)", o, flags=re.S)
-            out[t] = "lost: " + (mm.group(1) if mm else o[-400:]).replace("\n", " ")[:400]
+            return t, "checked"
+        mm = re.search(r"(Error:.*)", o, flags=re.S)
+        return t, "lost: " + (mm.group(1) if mm else o[-400:]).replace("\n", " ")[:400]
+
+    if jobs_:
+        from concurrent.futures import ThreadPoolExecutor
+
+        with ThreadPoolExecutor(max(1, min(JOBS, 8))) as ex:
+            for t, r in ex.map(_one, jobs_):
+                out[t] = r
+                cache["results"][t] = r
+    try:
+        json.dump(cache, open(cache_p, "w"))
+    except Exception:  # noqa: BLE001
+        pass
     return out
 
 
